@@ -180,6 +180,19 @@ impl Prop for C06 {
             },
         ));
         v.push(Scope::new(
+            "fractional-scales",
+            "shape families at scales 2.4, 7.2 and 10.4 (a cell is not a whole number of units) x 3 offsets",
+            move |f| {
+                for (i, (_n, d)) in shapes::family_samples(12).into_iter().enumerate() {
+                    if i % 6 == 0 {
+                        for sc in [24i64, 72, 104] {
+                            f(Case::sn(d.clone(), vec![0, 0, sc]));
+                        }
+                    }
+                }
+            },
+        ));
+        v.push(Scope::new(
             "quoted-only",
             "inputs whose only content is quoted text (the canvas must still move with the drawing)",
             |f| {
@@ -268,7 +281,7 @@ impl Prop for C06 {
         scope == "examples"
     }
     fn check(&self, _scope: &str, case: &Case, cx: &mut Cx) {
-        let scale = 8.0;
+        let scale = case.n.get(2).map(|s| *s as f64 / 10.0).unwrap_or(8.0);
         let base = match cx.conv_doc(&case.s, &Sett::bare_scale(scale as f32)) {
             Some(d) => d,
             None => return,
